@@ -51,12 +51,18 @@ Decrypt(ms)  == UNCHANGED <<g, m>> /\ Did([op |-> "Decrypt", ms |-> ms, dec |-> 
 FFTRound     == UNCHANGED <<g, m>> /\ Did([op |-> "FFTRound"])                                                \* tGswToFFTConvert then tGswFromFFTConvert
 \* the gadget added in the Lagrange domain: what comes back from tGswToFFTConvert ; tGswFFTAddH ; tGswFromFFTConvert is the register plus H,
 \* and from tGswFFTClear ; tGswFFTAddH ; tGswFromFFTConvert it is H alone (the register itself is left as it was)
+\* a fresh encryption by the library itself (tGswSymEncrypt / tGswSymEncryptInt with real masks and noise 2^-alog, into a scratch sample): its rows are not
+\* the specification's, but their phases are - the message times the gadget, as WellFormed says, up to the noise
+PhasesOf(mu) == [r \in Rows |-> LET mh == [i \in Idx |-> Md(mu[i] * H(RowP(r)))] IN IF RowC(r) = KK THEN TLCEval(mh) ELSE PSub(Zero, NegMul(SKey[RowC(r)], mh))]
+EncPoly(mu, alog) == UNCHANGED <<g, m>> /\ Did([op |-> "EncPoly", mu |-> SeqOf(mu), alog |-> alog])
+EncInt(v, alog)   == UNCHANGED <<g, m>> /\ Did([op |-> "EncInt", v |-> v, alog |-> alog])
 FFTAddHOf(gg) == PlaceMuH(gg, Const(1))
 FFTAddH      == UNCHANGED <<g, m>> /\ Did([op |-> "FFTAddH"])
 FFTOnlyH     == UNCHANGED <<g, m>> /\ Did([op |-> "FFTOnlyH"])
 ANext == \/ Clear \/ AddH \/ FFTRound \/ FFTAddH \/ FFTOnlyH
          \/ \E k \in 1..Len(MuPool) : AddMuH(MuP(k)) \/ Trivial(MuP(k)) \/ \E tag \in Tags : Load(k, tag)
-         \/ \E v \in {-1, 2, 3} : AddMuIntH(v)
+         \/ \E v \in {-1, 2, 3} : AddMuIntH(v) \/ \E alog \in {20, 30} : EncInt(v, alog)
+         \/ \E k \in 1..Len(MuPool), alog \in {20, 30} : EncPoly(MuP(k), alog)
          \/ \E e \in Exps : MulXaiM1(e)
          \/ \E ms \in Msizes : Decrypt(ms)
 ASpec == AInit /\ [][ANext]_avars
